@@ -1,4 +1,4 @@
-import SeqVerif.Model.SearchDocsLemmas
+import SeqVerif.Model.SearchDocsTotals
 import SeqVerif.Extracted.C05
 /-!
 # C05 - results are independent of how documents are split over fractions and shards
@@ -129,6 +129,57 @@ theorem c05_listed_once_page (desc : Bool) (answers : List QPR) (offset size hi 
   exact List.Nodup.sublist ((List.take_sublist _ _).trans (List.drop_sublist _ _))
     (sortedBy_nodup desc _ (mergeQPRs_ids_sorted desc _ _ _ _))
 
+/-! ## total and histogram -/
+
+/-- **total of a merge, exactly** - for any inputs: the sum of the totals, minus (when that sum is positive; uint64
+wrap-around modelled by `subTotal`) the number of repeated IDs *among the ID lists handed in*.  This is the
+"stated, not hidden" limit of the property: a document stored twice is subtracted only when both copies are inside
+the lists that reach the merge. -/
+theorem c05_merge_total (desc : Bool) (dst : QPR) (qs : List QPR) (limit hi : Nat) :
+    (mergeQPRs desc dst qs limit hi).total =
+      subTotal (dst.total + (qs.map (·.total)).sum) ((allIds dst qs).length - (sd desc (allIds dst qs)).length) :=
+  mergeQPRs_total desc dst qs limit hi
+
+/-- **histogram of a merge, exactly** (destination owns a map, bucket `k` does not underflow): the sum of the
+inputs' counts of bucket `k` minus the repetitions whose MID falls into bucket `k`. -/
+theorem c05_merge_hist (desc : Bool) (dst : QPR) (qs : List QPR) (limit hi : Nat) (hhi : hi > 0) (k : Nat)
+    (hle : cntBucket hi k (repetitions (sortIds desc (allIds dst qs))) ≤ histGet (mergedHist dst qs) k) :
+    histGet (mergeQPRs desc dst qs limit hi).hist k =
+      histGet dst.hist k + (qs.map (fun q => Hist.sumAt (q.hist.getD []) k)).sum
+        - cntBucket hi k (repetitions (sortIds desc (allIds dst qs))) :=
+  mergeQPRs_hist desc dst qs limit hi hhi k hle
+
+/-- `MergeQPRs` cannot hit its nil-map write when the destination owns a histogram map (`SearchDocs`, the proxy) -/
+theorem c05_merge_no_panic (desc : Bool) (dst : QPR) (qs : List QPR) (hi : Nat) (h : dst.hist.isSome = true) :
+    mergePanics desc dst qs hi = false :=
+  mergePanics_false desc dst qs hi h
+
+/-- **merge associativity (total, histogram).**  When no ID is handed in twice, two rounds with any intermediate
+cut give the total and every histogram bucket of a single round. -/
+theorem c05_merge_assoc_total_hist (desc : Bool) (dst : QPR) (qs rs : List QPR) (L hi : Nat)
+    (h : (allIds dst (qs ++ rs)).Nodup) :
+    (mergeQPRs desc (mergeQPRs desc dst qs L hi) rs L hi).total = (mergeQPRs desc dst (qs ++ rs) L hi).total ∧
+    ∀ k, histGet (mergeQPRs desc (mergeQPRs desc dst qs L hi) rs L hi).hist k
+        = histGet (mergeQPRs desc dst (qs ++ rs) L hi).hist k :=
+  mergeQPRs_assoc_total_hist desc dst qs rs L hi h
+
+/-- **c05_partition_invariant (total, histogram).**  Under the stated hypothesis that no document is stored in two
+fractions, for every layout, every `FractionsPerIteration`, both orders, every limit: `SearchDocs` returns the total
+and every histogram bucket that one fraction holding everything returns (a nil map reads as 0). -/
+theorem c05_partition_invariant_total_hist (c : Cfg) (fs : List Frac) (from_ to_ L : Nat)
+    (hvis : ∀ f, f ∈ fs → f.docs ≠ [] → isIntersecting f from_ to_ = true)
+    (hmax : c.maxHits = 0 ∨ (filterInRange fs from_ to_).length ≤ c.maxHits)
+    (hnd : (docsOf fs).Nodup) :
+    ∃ q, searchDocs c fs from_ to_ L = some q ∧
+      q.total = (fracSearch c ⟨0, 0, 0, docsOf fs⟩ L).total ∧
+      ∀ k, histGet q.hist k = histGet (fracSearch c ⟨0, 0, 0, docsOf fs⟩ L).hist k := by
+  obtain ⟨q, h1, h2, _, h4⟩ := searchDocs_total_hist c fs from_ to_ L hvis hmax hnd
+  refine ⟨q, h1, by simpa [fracSearch] using h2, fun k => ?_⟩
+  rw [h4 k]
+  by_cases hhi : c.hi > 0
+  · simp [fracSearch, hhi, histGet, get_histOf]
+  · simp [fracSearch, hhi, histGet, Hist.get]
+
 /-- `seq.Less` on `{MID,RID}` is the order of the single number used by the model -/
 theorem c05_key_order (m1 r1 m2 r2 : Nat) (h1 : r1 < R) (h2 : r2 < R) :
     key m1 r1 < key m2 r2 ↔ idLess m1 r1 m2 r2 = true :=
@@ -197,6 +248,18 @@ example :
     searchDocs ⟨true, false, 0, false, 1, 0⟩
       [⟨3, 10, 30, [key 30 1, key 20 1, key 10 0]⟩, ⟨2, 5, 25, [key 25 0, key 5 7]⟩, ⟨2, 1, 9, [key 9 0, key 1 0]⟩] 0 100 2
       = some ⟨[key 30 1, key 25 0], 0, some []⟩ := by
+  decide +kernel
+
+/-- the `Nodup` hypothesis is met by the layout above minus the shared ID ... -/
+example : (docsOf [(⟨2, 20, 40, [key 40 0, key 20 1]⟩ : Frac), ⟨2, 10, 30, [key 30 1, key 10 0]⟩, ⟨2, 5, 25, [key 25 0, key 5 7]⟩]).Nodup := by
+  decide
+
+/-- ... and it is needed: the ID `20:1` stored in two fractions is counted twice in total and histogram when the
+second copy is cut off before the merge (limit 1, one fraction per iteration) - `c05_merge_total` gives the value -/
+example :
+    (searchDocs ⟨true, true, 10, false, 1, 0⟩
+      [⟨2, 20, 40, [key 40 0, key 20 1]⟩, ⟨1, 20, 20, [key 20 1]⟩] 0 100 1).map (fun q => (q.total, histGet q.hist 20))
+      = some (3, 2) := by
   decide +kernel
 
 /-- pages (0,2), (2,1), (3,3) of a 5-element list -/
